@@ -1,6 +1,7 @@
 import GambitV.Model.Kmers
 import GambitV.Model.Find
 import GambitV.Model.Taxonomy
+import GambitV.Model.Cli
 
 /-!
 Run-time library of the Python → Lean translator (`harness/py2lean.py`).  Core Lean only.
@@ -153,6 +154,39 @@ def NUCLEOTIDES : List UInt8 := [65, 67, 71, 84]
 structure KSpec where
   k : Int
   pre : List UInt8
+  deriving Repr, DecidableEq, Inhabited
+
+/-- `gambit.classify.GenomeMatch` (reference genomes are indices into the list of genome taxa) -/
+structure GenomeMatch where
+  genome : Nat
+  distance : Nat
+  matched_taxon : Option Nat
+  deriving Repr, DecidableEq, Inhabited
+
+/-- `gambit.classify.ClassifierResult` without `next_taxon` (an attrs default computed by `GenomeMatch.next_taxon`, tied separately);
+messages are identified by their first literal piece -/
+structure ClassifierResult where
+  success : Bool
+  predicted_taxon : Option Nat
+  primary_match : Option GenomeMatch
+  closest_match : GenomeMatch
+  warnings : List String
+  error : Option String
+  deriving Repr, DecidableEq, Inhabited
+
+/-- `gambit.query.QueryParams` -/
+structure QueryParams where
+  classify_strict : Bool
+  chunksize : Option Int
+  report_closest : Int
+  deriving Repr, DecidableEq, Inhabited
+
+/-- `gambit.query.QueryResultItem` (`input` is an opaque label) -/
+structure QueryResultItem where
+  input : Int
+  classifier_result : ClassifierResult
+  report_taxon : Option Nat
+  closest_genomes : List GenomeMatch
   deriving Repr, DecidableEq, Inhabited
 
 /-- `a // b` (floor division) and `a % b` of Python for `b ≠ 0` -/
